@@ -6,3 +6,5 @@ for P in "$@"; do
   OPENPINCH_REPO=/tmp/wt_$ID .venv/bin/python run.py "$P" --tier "$TIER" > /tmp/seed_${ID}_$P.log 2>&1; rc=$?
   echo "== $ID vs $P ($TIER) exit=$rc"; grep -v Warning /tmp/seed_${ID}_$P.log | grep "VIOLATION\|INCONCLUSIVE\|KNOWN-FINDING\|^\[C" | cut -c1-260 | head -5
 done
+# a seeded run rewrites evidence/<id>.json and evidence/replays in /verif: put the committed (unchanged-tree) files back
+git -C /verif checkout -- evidence 2>/dev/null; git -C /verif clean -fdq evidence/replays 2>/dev/null
